@@ -20,7 +20,7 @@ def main():
     p = os.path.join(ctx.scratch, 's'); vlib.write_ndjson(p, [sc])
     subprocess.run([exe, 'srv', '--in', p, '--out', p + '.tr'], check=True)
     tr = json.loads(open(p + '.tr.0').readline())
-    if 'abs' in sc: print('ABS', [(e['op'], e['sid'], e['a'], e['b'], e['es'], e['eh']) for e in sc['abs']])
+    if 'abs' in sc and sc['abs'] and isinstance(sc['abs'][0], dict): print('ABS', [(e['op'], e['sid'], e['a'], e['b'], e['es'], e['eh']) for e in sc['abs']])
     for e in tr['evs']:
         k = e['k']
         if k in ('send', 'recv'): print('%-5s %s' % (k, fs(e['f'])))
